@@ -2355,14 +2355,17 @@ impl IdmServerProxyWriteTransaction<'_> {
             self.reload_oauth2_client_providers()?;
         }
 
-        // Commit everything.
+        // Commit the query server (and with it the database) first. Only publish our
+        // in-memory state once that has succeeded.
+        self.qs_write.commit()?;
+
         self.applications.commit();
         self.oauth2rs.commit();
         self.cred_update_sessions.commit();
         self.oauth2_client_providers.commit();
 
         trace!("cred_update_session.commit");
-        self.qs_write.commit()
+        Ok(())
     }
 }
 
